@@ -11,6 +11,7 @@ import (
 	"github.com/freeconf/yang/node"
 	"github.com/freeconf/yang/nodeutil"
 	"github.com/freeconf/yang/parser"
+	"github.com/freeconf/yang/source"
 
 	"verif/harness/dm"
 	"verif/harness/hx"
@@ -22,14 +23,23 @@ var dmModCache sync.Map
 // a fresh load per case would only cost time).
 func loadDM(m *dm.Module) (*meta.Module, error) {
 	text := m.Yang()
-	if c, ok := dmModCache.Load(text); ok {
+	files := m.Files()
+	key := text
+	for _, f := range sortedKeys(files) {
+		key += "\x00" + files[f]
+	}
+	if c, ok := dmModCache.Load(key); ok {
 		return c.(*meta.Module), nil
 	}
-	mm, err := parser.LoadModuleFromString(nil, text)
+	var opener source.Opener
+	if len(files) > 0 {
+		opener = memOpener(files)
+	}
+	mm, err := parser.LoadModuleFromString(opener, text)
 	if err != nil {
 		return nil, err
 	}
-	dmModCache.Store(text, mm)
+	dmModCache.Store(key, mm)
 	return mm, nil
 }
 
